@@ -50,6 +50,7 @@ def setup(rep, tier):
     rep.minimum('R20.6', 1)
     rep.minimum('R20.7', 2)
     rep.minimum('R20.8', 1)
+    rep.minimum('R20.9', 1)
 
 
 def single(v):
@@ -625,7 +626,36 @@ def r20_8(rep, prog):
         rep.holds('R20.8', inst, where, '%d valuations of (mid counter, side counter, internal channels, mid-only)' % ncase)
 
 
+# ------------------------------------------------------------------ R20.9
+def r20_9(rep, prog):
+    """SILK DTX is armed once per PACKET (`inDTX = useDTX` in silk_Encode) and vetoed per frame by the VAD step (R20.2):
+    one frame of a 40/60 ms packet - the refresh - clears it for the whole packet.  The arming store must therefore lie
+    outside the loop that encodes the frames; inside it, a later frame re-arms what an earlier frame vetoed."""
+    n = 0
+    for f in prog.functions_all:
+        if not f.file.startswith('silk/') or f.name != 'silk_Encode':
+            continue
+        cf = cfgm.CFG(f)
+        frame_loops = [body for h, latch, body in cf.natural_loops()
+                       if any(sx.kind(x) == 'call' and (sx.callee_name(x) or '').startswith(('silk_encode_frame', 'silk_encode_do_VAD')) for b in body for s_ in cf.blocks[b]['stmts'] for x in sx.walk(s_))]
+        for b, i, x in cf.find(lambda x: x[0] == 'assign' and sx.kind(sx.strip_paren(x[1])) == 'field' and sx.strip_paren(x[1])[3] == 'inDTX'):
+            if sx.int_val(sx.strip(x[2])) == 0:
+                continue
+            n += 1
+            rep.functions.add(f.name)
+            inst = '%s:silk_Encode arms DTX once per packet (`%s`)' % (prog.config, sx.show(x)[:50])
+            where = '%s:%s' % (f.file, sx.line(x))
+            if any(b in body for body in frame_loops):
+                rep.violated('R20.9', inst, where, 'the arming store lies inside the loop that encodes the frames of the packet: a refresh frame that is not the last one of a 40/60 ms packet is re-armed by the next frame and the refresh packet is never sent', key='silk-dtx-arming-per-frame')
+            else:
+                rep.holds('R20.9', inst, where, 'outside the %d frame-encoding loop(s)' % len(frame_loops))
+        if not frame_loops:
+            rep.unresolved('R20.9', '%s: frame-encoding loop of silk_Encode not found' % prog.config)
+    return n
+
+
 def check(rep, prog, tier):
+    r20_9(rep, prog)
     r20_7(rep, prog)
     r20_8(rep, prog)
     omin = r20_1(rep, prog)
